@@ -32,11 +32,19 @@ fn order_family(k: usize, full_upto: usize, d: usize) -> Vec<Vec<usize>> {
 struct Class {
     first: Option<(Obs, String)>,
     n: u64,
+    /// compare the first member with the model as well (false: the members only have to agree with each other)
+    against_model: bool,
 }
 
 impl Class {
     fn new() -> Class {
-        Class { first: None, n: 0 }
+        Class { first: None, n: 0, against_model: true }
+    }
+    /// A class whose members must agree with each other, whatever they are: for inputs whose MEANING no
+    /// property of this check fixes (what a NOT row does to a positive row of the same disease and term), only
+    /// that the meaning does not depend on the order.
+    fn among_themselves() -> Class {
+        Class { first: None, n: 0, against_model: false }
     }
     /// Add the observation of one linearisation; report if it differs from the first one.
     fn add(&mut self, ctx: &mut Ctx, ont: Result<Ontology, String>, exp: &Obs, path: &str, what: &str, case: &dyn Fn() -> Value) {
@@ -58,8 +66,10 @@ impl Class {
                         ctx.violation(&site, &format!("[{path}] result depends on the supply order: {sig}"), json!({"case": case(), "order_a": first_what, "order_b": what, "difference (b vs a)": det}));
                     }
                 } else {
-                    if let Some((site, sig, det)) = obs.diff(exp, false) {
-                        ctx.violation(&site, &format!("[{path}] {sig}"), json!({"case": case(), "order": what, "difference": det}));
+                    if self.against_model {
+                        if let Some((site, sig, det)) = obs.diff(exp, false) {
+                            ctx.violation(&site, &format!("[{path}] {sig}"), json!({"case": case(), "order": what, "difference": det}));
+                        }
                     }
                     ctx.outcome(obs.fingerprint());
                     self.first = Some((obs, what.to_string()));
@@ -77,8 +87,16 @@ fn from_bytes(bytes: &[u8]) -> Result<Ontology, String> {
     }
 }
 
+/// Facts through the independent encoder and the decoder. The statement speaks of the order of the RECORDS of a
+/// section; a decoder that insists on ascending ids INSIDE a record is not judged: a refused file whose in-record
+/// lists are not ascending is written again with ascending ones (records in the same order).
+fn from_facts_bytes(f: &Facts, version: u8) -> Result<Ontology, String> {
+    super::c10::decode_tolerant(f, &EncOpts::list_order(version))
+}
+
 fn from_jax(f: &Facts, o: &JaxOpts, transitive: bool) -> Result<Ontology, String> {
-    match jax::load(&jax::render(f, o), transitive) {
+    // (only the gene file the loader is documented to read is present: which files a loader opens is C09's question)
+    match jax::load_with(&jax::render(f, o), transitive, jax::OtherGeneFile::Absent) {
         Ok(Ok(o)) => Ok(o),
         Ok(Err(e)) => Err(e),
         Err(p) => Err(format!("panic: {p}")),
@@ -87,7 +105,10 @@ fn from_jax(f: &Facts, o: &JaxOpts, transitive: bool) -> Result<Ontology, String
 
 pub fn run(ctx: &mut Ctx) {
     ctx.rule = "case = one fact set (labelled DAG + annotated subset S with records of all three kinds) with every listed linearisation; the set of distinct observations over the linearisations must be a singleton equal to the model; distinct by construction; non-trivial = fact set with more than one linearisation and at least one is_a link".into();
-    ctx.assumptions = vec!["one name per id, one replacement per term".into(), "only the iteration order of terms/genes/diseases may differ: observations are sorted before comparison".into()];
+    ctx.assumptions = vec!["one name per id, one replacement per term".into(), "only the iteration order of terms/genes/diseases may differ: observations are sorted before comparison".into(),
+        "binary files: the statement is about the order of the records of a section; a decoder that refuses descending ids INSIDE a record is given the same records with ascending ids".into(),
+        "text files with NOT-qualified rows: what a NOT row means for a positive row of the same disease and term is not fixed here; those files only have to agree with each other over all their row orders".into(),
+    ];
     let thorough = ctx.tier.thorough();
 
     // ---- Builder: permutations of terms, of links, of annotations
@@ -214,10 +235,56 @@ pub fn run(ctx: &mut Ctx) {
                 let f = Facts { terms: apply_perm(&base.terms, &order), ..base.clone() };
                 ctx.transitions(3 * f.n_steps());
                 cb.add(ctx, drive::build(&f, Mode::Minimal), &exp_min, "builder", oname, &case);
-                cbin.add(ctx, from_bytes(&encode::encode(&f, &EncOpts::v(3))), &exp_def, "binary v3", oname, &case);
+                cbin.add(ctx, from_facts_bytes(&f, 3), &exp_def, "binary v3", oname, &case);
                 cobo.add(ctx, from_jax(&f, &JaxOpts::default(), false), &exp_def, "jax", oname, &case);
             }
             ctx.sample(|| json!({"shape": what, "n_terms": n, "orders": 5}));
+        }
+        jax::cleanup();
+    }
+
+    // ---- many records on one term: 40 genes, 40 OMIM and 40 ORPHA diseases annotated to the last term of a large
+    // shape (every 4th also to the middle term, every 5th also to the first term below HP:118), the annotation
+    // facts in five supply orders. A per-term record collection with a fast path for ascending ids, or an early exit
+    // that compares lengths, depends on the order only when more records reach one term than it holds inline.
+    {
+        use crate::model::Kind;
+        let family: Vec<(Facts, String)> = super::common::large_family().into_iter().step_by(6).collect();
+        ctx.space("large-structured/annotation-orders", &format!("{} large shapes (every 6th of the family) with 40 genes (ids 1..=40), 40 OMIM (600001..) and 40 ORPHA diseases (ids 1..=40) on the last term, every 4th also on the middle term, every 5th also on the third term x 5 orders of the annotation facts (ascending, descending, rotated, even/odd, inside-out) = record order of the binary sections = row order of the text files, via Builder, binary v3 and the text loader (the class of each path must be a singleton equal to the model)", family.len()));
+        for (shape, what) in &family {
+            if !ctx.take() {
+                continue;
+            }
+            ctx.state();
+            ctx.nontrivial();
+            let n = shape.terms.len();
+            let (last, mid, third) = (shape.terms[n - 1].id, shape.terms[n / 2].id, shape.terms[2].id);
+            let mut base = shape.clone();
+            for j in 1..=40u32 {
+                for (kind, id, name) in [(Kind::Gene, j, format!("G{j}")), (Kind::Omim, 600_000 + j, format!("Omim {j}")), (Kind::Orpha, j, format!("Orpha {j}"))] {
+                    base.anns.push(Facts::ann(kind, id, &name, Some(last)));
+                    if j % 4 == 0 {
+                        base.anns.push(Facts::ann(kind, id, &name, Some(mid)));
+                    }
+                    if j % 5 == 0 {
+                        base.anns.push(Facts::ann(kind, id, &name, Some(third)));
+                    }
+                }
+            }
+            let r = RefOnt::derive(&base);
+            let na = base.anns.len();
+            let case = || json!({"shape": what, "n_terms": n, "records": "40 of each kind on the last term", "annotation_facts": na});
+            let (mut cb, mut cbin, mut ctxt) = (Class::new(), Class::new(), Class::new());
+            let exp_min = Obs::expected(&r, Mode::Minimal);
+            let exp_def = Obs::expected(&r, Mode::Defaults);
+            for (order, oname) in super::common::large_orders(na) {
+                let f = Facts { anns: apply_perm(&base.anns, &order), ..base.clone() };
+                ctx.transitions(3 * f.n_steps());
+                cb.add(ctx, drive::build(&f, Mode::Minimal), &exp_min, "builder", oname, &case);
+                cbin.add(ctx, from_facts_bytes(&f, 3), &exp_def, "binary v3", oname, &case);
+                ctxt.add(ctx, from_jax(&f, &JaxOpts::default(), false), &exp_def, "jax", oname, &case);
+            }
+            ctx.sample(|| json!({"shape": what, "n_terms": n, "annotation_facts": na, "orders": 5}));
         }
         jax::cleanup();
     }
@@ -266,7 +333,7 @@ pub fn run(ctx: &mut Ctx) {
             ctx.transitions(3 * f.n_steps());
             // each order is its own class against the model (the model is order-free)
             Class::new().add(ctx, drive::build(&f, Mode::Minimal), &exp_min, "builder", &oname, &case);
-            Class::new().add(ctx, from_bytes(&encode::encode(&f, &EncOpts::v(3))), &exp_def, "binary v3", &oname, &case);
+            Class::new().add(ctx, from_facts_bytes(&f, 3), &exp_def, "binary v3", &oname, &case);
             Class::new().add(ctx, from_jax(&f, &JaxOpts::default(), false), &exp_def, "jax", &oname, &case);
             ctx.sample(|| json!({"order": oname}));
         }
@@ -278,7 +345,7 @@ pub fn run(ctx: &mut Ctx) {
         let n = if thorough { 4 } else { 3 };
         for nn in 2..=n {
             let dags = all_dags(nn);
-            ctx.space(&format!("binary/D{nn}"), &format!("{} labelled DAGs over {:?} x 2^{nn} subsets; v3: all orders of term records, parent records, gene, omim and orpha records (one section at a time), reversed ids inside records; v1/v2: all term-record orders, reversed sections; odd subsets carry obsolete / replacement flags", dags.len(), &POOL_ROOTS[..nn]));
+            ctx.space(&format!("binary/D{nn}"), &format!("{} labelled DAGs over {:?} x 2^{nn} subsets; v3: all orders of term records, parent records, gene, omim and orpha records (one section at a time), all facts reversed (record order, and the ids inside records unless the decoder refuses those); v1/v2: all term-record orders, reversed sections; odd subsets carry obsolete / replacement flags", dags.len(), &POOL_ROOTS[..nn]));
             for d in &dags {
                 for s in 0..(1u32 << nn) {
                     if !ctx.take() {
@@ -309,7 +376,7 @@ pub fn run(ctx: &mut Ctx) {
                         let pf = encode::project(&base, version);
                         let r = RefOnt::derive(&pf);
                         let exp = Obs::expected(&r, Mode::Defaults);
-                        let secs = Sections::from_facts(&pf, &EncOpts::v(version));
+                        let secs = Sections::from_facts(&pf, &EncOpts::list_order(version));
                         let mut class = Class::new();
                         ctx.transitions(pf.n_steps());
                         class.add(ctx, from_bytes(&secs.to_bytes()), &exp, &format!("binary v{version}"), "canonical", &case);
@@ -340,15 +407,18 @@ pub fn run(ctx: &mut Ctx) {
                             }
                             variants.push((x, "all sections reversed".into()));
                         }
-                        // ids inside records reversed
-                        let mut g = pf.clone();
-                        g.edges.reverse();
-                        g.anns.reverse();
-                        variants.push((Sections::from_facts(&g, &EncOpts::v(version)), "facts reversed (ids inside records and record order)".into()));
                         for (x, what) in variants {
                             ctx.transitions(pf.n_steps());
                             class.add(ctx, from_bytes(&x.to_bytes()), &exp, &format!("binary v{version}"), &what, &case);
                         }
+                        // facts reversed: the parent and gene / disease records in reverse order AND the ids inside
+                        // every record descending (the statement covers the first; a decoder that refuses the second
+                        // gets the same file with ascending ids inside the records)
+                        let mut g = pf.clone();
+                        g.edges.reverse();
+                        g.anns.reverse();
+                        ctx.transitions(pf.n_steps());
+                        class.add(ctx, from_facts_bytes(&g, version), &exp, &format!("binary v{version}"), "facts reversed (record order and ids inside records)", &case);
                     }
                     ctx.sample(|| json!({"dag": d.describe(), "ids": ids, "S": crate::space::bits(s, nn)}));
                 }
@@ -436,18 +506,22 @@ pub fn run(ctx: &mut Ctx) {
                         class.add(ctx, from_jax(&base, &o, transitive), &exp, path, &format!("gene rows {p:?}"), &case);
                     }
                     if !transitive {
+                        // the files with NOT rows form a class of their own: whatever a NOT row means for a positive
+                        // row of the same disease and term (ignored, or "NOT wins" - no property of this check says),
+                        // it must mean the same in every row order, and whether the NOT rows come first or last
+                        let mut twins = Class::among_themselves();
                         for p in order_family(nd, 4, 1).into_iter().skip(1) {
                             let mut o = JaxOpts::default();
                             o.disease_row_order = Some(p.clone());
                             ctx.transitions(base.n_steps());
                             class.add(ctx, from_jax(&base, &o, transitive), &exp, path, &format!("disease rows {p:?}"), &case);
                             // the same rows with a NOT-qualified twin of each (a second source that excludes the
-                            // term): before or after the rows that count
+                            // term): before or after the positive rows
                             for d in [crate::jax::Distractor::NotRowTwinsFirst, crate::jax::Distractor::NotRowTwinsLast] {
                                 let mut o = o.clone();
                                 o.distractors = vec![d.clone()];
                                 ctx.transitions(base.n_steps());
-                                class.add(ctx, from_jax(&base, &o, transitive), &exp, path, &format!("disease rows {p:?} with {d:?}"), &case);
+                                twins.add(ctx, from_jax(&base, &o, transitive), &exp, "jax, NOT-qualified twin rows", &format!("disease rows {p:?} with {d:?}"), &case);
                             }
                         }
                     }
@@ -461,5 +535,107 @@ pub fn run(ctx: &mut Ctx) {
             }
         }
         jax::cleanup();
+    }
+
+    // ---- text rows of one record far apart: a loader that closes a record when the id in the first column changes
+    // ("the files are grouped") and re-opens it badly needs the rows of one record in three separate runs
+    {
+        use crate::model::Kind;
+        let mut base = Facts::default();
+        base.version = (2024, 2, 29);
+        for (id, name) in [(1u32, "All"), (118, "Phenotypic abnormality"), (119, "T119"), (4000, "T4000"), (77_777, "T77777")] {
+            base.terms.push(Facts::term(id, name));
+        }
+        base.edges = vec![(118, 1), (119, 118), (4000, 119), (77_777, 118)];
+        // 8 disease rows and 8 gene rows; the first three of each belong to one record
+        for t in [119u32, 4000, 77_777] {
+            base.anns.push(Facts::ann(Kind::Omim, 600_001, "Disease one", Some(t)));
+        }
+        for (kind, id, name, t) in [(Kind::Omim, 600_002u32, "Disease two", 118u32), (Kind::Omim, 600_002, "Disease two", 4000), (Kind::Orpha, 77, "Orpha one", 119), (Kind::Orpha, 77, "Orpha one", 77_777), (Kind::Orpha, 600_001, "Orpha with the id of disease one", 4000)] {
+            base.anns.push(Facts::ann(kind, id, name, Some(t)));
+        }
+        for t in [119u32, 4000, 77_777] {
+            base.anns.push(Facts::ann(Kind::Gene, 11, "GENE1", Some(t)));
+        }
+        for (id, name, t) in [(22u32, "GENE2", 118u32), (22, "GENE2", 4000), (33, "GENE3", 77_777), (44, "GENE4", 119), (44, "GENE4", 118)] {
+            base.anns.push(Facts::ann(Kind::Gene, id, name, Some(t)));
+        }
+        // every placement of the three rows of the first record among the 8 rows (the other rows keep their order),
+        // and for the placement first / middle / last the three rows also in every order among themselves
+        let mut orders: Vec<Vec<usize>> = vec![];
+        for a in 0..8usize {
+            for b in a + 1..8 {
+                for c in b + 1..8 {
+                    let inner: Vec<Vec<usize>> = if (a, b, c) == (0, 4, 7) { permutations(3) } else { vec![vec![0, 1, 2]] };
+                    for p in inner {
+                        let mut order = vec![usize::MAX; 8];
+                        order[a] = p[0];
+                        order[b] = p[1];
+                        order[c] = p[2];
+                        let mut rest = 3..8usize;
+                        for slot in order.iter_mut().filter(|x| **x == usize::MAX) {
+                            *slot = rest.next().unwrap();
+                        }
+                        orders.push(order);
+                    }
+                }
+            }
+        }
+        ctx.space("jax/rows-of-one-record-apart", &format!("terms 1, 118, 119, 4000, 77777; OMIM 600001 and gene 11 with three rows each among 8 disease rows / 8 gene rows (an ORPHA disease with the numeric id 600001 among them): all {} placements of the three rows among the eight (other rows in place; for first / middle / last also every order of the three), disease rows and gene rows, both loaders", orders.len()));
+        let r = RefOnt::derive(&base);
+        let exp = Obs::expected(&r, Mode::Defaults);
+        for transitive in [false, true] {
+            for genes in [false, true] {
+                if !ctx.take() {
+                    continue;
+                }
+                ctx.state();
+                ctx.nontrivial();
+                let path = if transitive { "jax transitive" } else { "jax" };
+                let case = || json!({"facts": base.to_json()});
+                let mut class = Class::new();
+                for p in &orders {
+                    let mut o = JaxOpts::default();
+                    if genes {
+                        o.gene_row_order = Some(p.clone());
+                    } else {
+                        o.disease_row_order = Some(p.clone());
+                    }
+                    ctx.transitions(base.n_steps());
+                    class.add(ctx, from_jax(&base, &o, transitive), &exp, path, &format!("{} rows {p:?}", if genes { "gene" } else { "disease" }), &case);
+                }
+                ctx.sample(|| json!({"rows": if genes { "gene" } else { "disease" }, "transitive_loader": transitive, "orders": orders.len()}));
+            }
+        }
+        jax::cleanup();
+    }
+
+    // ---- (last) very deep graphs: ancestors-first against descendants-first supply order. A closure computed by
+    // "repeat a pass over all terms until nothing changes, at most 512 / 1024 / 2048 passes" converges in one pass
+    // when ancestors come first and needs as many passes as the graph is deep when descendants come first.
+    {
+        let family = super::common::very_deep_family();
+        ctx.space("very-deep/orders", &format!("{} shapes (chains of 1100 and 2100 terms with a shortcut, a ladder of 14 levels) x ascending / descending supply order of terms and links via Builder (a singleton class equal to the model)", family.len()));
+        for (base, what) in &family {
+            if !ctx.take() {
+                continue;
+            }
+            ctx.state();
+            ctx.nontrivial();
+            let r = RefOnt::derive(base);
+            let exp = Obs::expected(&r, Mode::Minimal);
+            let n = base.terms.len();
+            let case = || json!({"shape": what, "n_terms": n});
+            let mut desc = base.clone();
+            desc.terms.reverse();
+            desc.edges.reverse();
+            let mut class = Class::new();
+            for (f, oname) in [(base, "ascending (ancestors first)"), (&desc, "descending (descendants first)")] {
+                ctx.transitions(f.n_steps());
+                class.add(ctx, drive::build(f, Mode::Minimal), &exp, "builder", oname, &case);
+            }
+            ctx.sample(|| json!({"shape": what, "n_terms": n, "orders": 2}));
+            crate::ctx::trim_heap();
+        }
     }
 }
